@@ -997,7 +997,7 @@ class XmlDocument(SubXmlBase):
         subelts = [
             E("faultcode", '%s:%s' % (self.soap_env, inst.faultcode)),
             E("faultstring", inst.faultstring),
-            E("faultactor", inst.faultactor),
+            E("faultactor", inst.faultactor or ""),
         ]
 
         return self._fault_to_parent_impl(ctx, cls, inst, parent, ns, subelts)
@@ -1007,7 +1007,7 @@ class XmlDocument(SubXmlBase):
             E("faultcode", '%s:%s' % (self.soap_env, inst.faultcode)),
             # HACK: Does anyone know a better way of injecting raw xml entities?
             E("faultstring", html.fromstring(inst.faultstring).text),
-            E("faultactor", inst.faultactor),
+            E("faultactor", inst.faultactor or ""),
         ]
         if inst.detail != None:
             _append(subelts, E('detail', inst.detail))
